@@ -588,6 +588,16 @@ class CallMixin:
             return res
         raise Unsupported('dict(...) form')
 
+    def b_ChainMap(self, st, args):
+        s2 = st.fork()
+        d = args.pos[0] if args.pos else self.new_dict(s2, [])
+        if len(args.pos) > 1:
+            raise Unsupported('ChainMap with several maps')
+        if not (d.k == 'ref' and d.t == 'dict'):
+            d = sv_ref(self.box(s2, d), 'dict')
+        ref = self.alloc(s2, 'chainmap', Obj('chainmap', maps0=d, parent=None))
+        return [('ok', s2, sv_ref(ref, 'chainmap'))]
+
     def b_int(self, st, args):
         v = args.pos[0]
         if v.k == 'int':
